@@ -433,7 +433,7 @@ def global_term(model, mod, name):
         # a module-level constant bound once to a literal (tuple/list/set of constants or of dotted names, a string,
         # a number) is replaced by its value: moving a literal into a named constant is not a change for the rules
         vals = mod.assigns[name]
-        if len(vals) == 1:
+        if len(vals) == 1 and is_constant_global(mod, name):
             ct = module_expr_term(model, mod, vals[0])
             if ct is not None:
                 return ct
@@ -441,6 +441,36 @@ def global_term(model, mod, name):
     if hasattr(_builtins, name):
         return ("builtin", name)
     return ("unk", "free:" + name)
+
+
+_MUTATORS = ("append", "extend", "insert", "remove", "pop", "clear", "sort", "reverse", "update", "add", "discard", "setdefault", "popitem", "__setitem__", "__delitem__")
+
+
+def is_constant_global(mod, name):
+    """A module-level name bound once to an immutable literal, or to a NON-EMPTY list/dict/set literal that no code
+    of the module mutates or rebinds (a lookup table).  Empty containers are never constants: they exist to be filled."""
+    vals = mod.assigns.get(name, [])
+    if len(vals) != 1:
+        return False
+    v = vals[0]
+    mutable = isinstance(v, (ast.List, ast.Dict, ast.Set)) or (isinstance(v, ast.Call) and isinstance(v.func, ast.Name) and v.func.id in ("list", "dict", "set"))
+    if not mutable:
+        return True
+    if isinstance(v, ast.Call):
+        return False
+    size = len(v.keys) if isinstance(v, ast.Dict) else len(v.elts)
+    if size == 0:
+        return False
+    for sub in ast.walk(mod.tree):
+        if isinstance(sub, (ast.Global, ast.Nonlocal)) and name in sub.names:
+            return False
+        if isinstance(sub, ast.Subscript) and isinstance(sub.ctx, (ast.Store, ast.Del)) and isinstance(sub.value, ast.Name) and sub.value.id == name:
+            return False
+        if isinstance(sub, ast.Call) and isinstance(sub.func, ast.Attribute) and isinstance(sub.func.value, ast.Name) and sub.func.value.id == name and sub.func.attr in _MUTATORS:
+            return False
+        if isinstance(sub, ast.AugAssign) and isinstance(sub.target, ast.Name) and sub.target.id == name:
+            return False
+    return True
 
 
 def module_expr_term(model, mod, e, depth=0):
@@ -458,6 +488,19 @@ def module_expr_term(model, mod, e, depth=0):
             elems.append(t)
         # displays of literals compare by content: a fixed pseudo-site
         return ("display", type(e).__name__.lower() if not isinstance(e, ast.Tuple) else "tuple", tuple(elems), ("<const>", 0, 0))
+    if isinstance(e, ast.Dict):
+        elems = []
+        for k_, v_ in zip(e.keys, e.values):
+            if k_ is None:
+                return None
+            kt = module_expr_term(model, mod, k_, depth + 1)
+            vt = module_expr_term(model, mod, v_, depth + 1)
+            if kt is None or vt is None:
+                return None
+            elems.append((kt, vt))
+        return ("display", "dict", tuple(elems), ("<const>", 0, 0))
+    if isinstance(e, ast.Lambda):
+        return ("lambda", (mod.name, e.lineno, e.col_offset))
     if isinstance(e, ast.Call) and isinstance(e.func, ast.Name) and e.func.id in ("frozenset", "tuple", "set", "list") and len(e.args) == 1 and not e.keywords:
         inner = module_expr_term(model, mod, e.args[0], depth + 1)
         if inner is not None and inner[0] == "display":
